@@ -24,6 +24,7 @@ def check(tier, seed, t0):
     if thorough:
         runs.append(("d3", ["a", "b"], 3, "full"))
         runs.append(("data3", ["a", "b"], 3, "data"))
+        runs.append(("fn5", ["a", "b"], 5, "fn"))
     cases, states, trans, wall = [], 0, 0, 0.0
     for tag, vs, depth, alpha in runs:
         r = vlib.run_tlc("c03_mc_" + tag, "MC_C03", cfg(vs, depth, alpha), workers=8, timeout=3000, xmx="12g")
